@@ -15,6 +15,28 @@ CLAIMED = {
     },
 }
 
+CLAIMED['C01'] = {
+    'technique': 'Rocq proof (interval-evaluator soundness, serialisation/decoding) + correspondence (tie B)',
+    'text': ('Deep embedding of the expression language with mathematical semantics evalX (Coq reals). Proved in Rocq for all trees, '
+             'environments and sharings: the executable interval evaluator encloses evalX (T01f), the differ is sound, and (Proofs/SigP.v) '
+             'decoding the emitted signature yields the index-resolved tree whatever the sharing. Tied to the code on every run by streams: '
+             'engine value per row and pure-Python value vs proved enclosures (exact dyadic exchange, membership decided in Coq), '
+             'get_signature bytes and IdManager tables vs the models, 1-3 formulas side by side, shared sub-formulas, a history of a '
+             'failing then a valid evaluation.'),
+    'note': KERNEL + 'the compiled engine is external: its operator semantics are MODELLED (Model/EvalX.v) and only sampled; IEEE rounding is '
+            'covered by the 2^-30 relative tolerance; normal CDF has no interval extension (undecided); real-number axioms of the standard '
+            'library, classic, functional extensionality, primitive 63-bit integers (Interval/Bignums).',
+}
+CLAIMED['C03'] = {
+    'technique': 'Rocq proof over the numbering model + correspondence (tie B)',
+    'text': ('Model of IdManager.prepare (sorted names per class, duplicates merged, refusal of a name used for two kinds) and of the '
+             'signature; theorems (Proofs/IdMgrP.v): numbering is a canonical sorted bijection independent of the order in which parameters '
+             'are met, equivariant under injective renamings, values follow names; evalX invariant under renaming. Streams on every run: '
+             'IdManager tables and signatures vs the model, and every formula under identity / random / order-reversing renamings with bounds '
+             'and partial dictionaries (values by name, likelihood by position, bounds by name, change_init_values, fixed untouched).'),
+    'note': KERNEL + 'IdManager modelled by hand and tied by behaviour; the clause about estimates up to optimiser tolerance is partial (external optimiser).',
+}
+
 _NOT_YET = 'check not built yet in this session (framework under construction); no claim made'
 NOT_APPLICABLE = {p: _NOT_YET for p in
                   ['C01', 'C02', 'C03', 'C04', 'C05', 'C06', 'C07', 'C08', 'C09', 'C10', 'C11', 'C12', 'C13',
